@@ -3,6 +3,7 @@ package c02
 import (
 	stdcmp "cmp"
 	"fmt"
+	"iter"
 	"math/rand"
 	"reflect"
 	"unsafe"
@@ -28,11 +29,13 @@ type list[K any] struct {
 	setNx, setX    func(K, int) bool
 	get, remove    func(K) (int, bool)
 	clear, init    func()
+	initWith       func(func(K, K) int) // SkipListWithCmp only: Init with another comparator
 	length         func() int
 	keys           func() []K
 	values         func() []int
 	rng            func(func(K, int) bool)
 	all            func(func(K, int) bool)
+	allSeq         func() iter.Seq2[K, int] // the iter.Seq2 value All() returns, to be kept and ranged later
 	rangeWithStart func(K, func(K, int) bool)
 	rangeWithRange func(K, K, func(K, int) bool)
 	getNode, head  func() *nodeView[K] // getNode uses argKey
@@ -79,6 +82,7 @@ func wrapOrd[K interface {
 	l.length, l.keys, l.values = s.Len, s.Keys, s.Values
 	l.rng = s.Range
 	l.all = func(f func(K, int) bool) { s.All()(f) }
+	l.allSeq = s.All
 	l.rangeWithStart, l.rangeWithRange = s.RangeWithStart, s.RangeWithRange
 	l.getNode = func() *nodeView[K] { return viewOrd(s.GetNode(l.argKey)) }
 	l.head = func() *nodeView[K] { return viewOrd(s.Head()) }
@@ -90,10 +94,12 @@ func wrapCmp[K any](s *listz.SkipListWithCmp[K, int], cmp func(K, K) int) *list[
 	l.set, l.setNx, l.setX = s.Set, s.SetNx, s.SetX
 	l.get, l.remove = s.Get, s.Remove
 	l.clear = s.Clear
-	l.init = func() { s.Init(cmp) }
+	l.init = func() { s.Init(l.cmp) }
+	l.initWith = func(f func(K, K) int) { l.cmp = f; s.Init(f) }
 	l.length, l.keys, l.values = s.Len, s.Keys, s.Values
 	l.rng = s.Range
 	l.all = func(f func(K, int) bool) { s.All()(f) }
+	l.allSeq = s.All
 	l.rangeWithStart, l.rangeWithRange = s.RangeWithStart, s.RangeWithRange
 	l.getNode = func() *nodeView[K] { return viewCmp(s.GetNode(l.argKey)) }
 	l.head = func() *nodeView[K] { return viewCmp(s.Head()) }
